@@ -10,6 +10,7 @@
 #![allow(missing_docs, missing_debug_implementations, clippy::unwrap_used)]
 
 use std::{
+    future::Future,
     net::SocketAddr,
     sync::{Arc, Mutex, Weak},
     time::Duration,
@@ -136,6 +137,48 @@ impl HomeRelay {
     pub fn watched_url(&self) -> Option<RelayUrl> {
         use n0_watcher::Watcher;
         self.0.watch().get().map(|status| status.url().clone())
+    }
+}
+
+/// A real `RelayActor` (with the `ActiveRelayActor`s it starts) and its `HomeRelayWatch`.
+pub struct RelayActorHandle {
+    watch: HomeRelayWatch,
+    network_change: Box<
+        dyn Fn(Option<RelayUrl>) -> std::pin::Pin<Box<dyn Future<Output = bool> + Send>>
+            + Send
+            + Sync,
+    >,
+    shutdown: Box<dyn Fn() + Send + Sync>,
+}
+
+impl RelayActorHandle {
+    /// Spawns the actor on the current tokio runtime.
+    pub fn spawn(
+        secret_key: iroh_base::SecretKey,
+        tls_config: rustls::ClientConfig,
+        relay_map: crate::RelayMap,
+    ) -> Self {
+        let (watch, network_change, shutdown) =
+            HomeRelayWatch::verif_spawn_relay_actor(secret_key, tls_config, relay_map);
+        Self {
+            watch,
+            network_change,
+            shutdown,
+        }
+    }
+
+    /// Delivers a net report whose preferred relay is `preferred` (`RelayActor::on_network_change`).
+    pub async fn network_change(&self, preferred: Option<RelayUrl>) -> bool {
+        (self.network_change)(preferred).await
+    }
+
+    /// The watchable the actors publish to.
+    pub fn home_relay(&self) -> HomeRelay {
+        HomeRelay(self.watch.clone())
+    }
+
+    pub fn shutdown(&self) {
+        (self.shutdown)();
     }
 }
 
